@@ -9,7 +9,7 @@ from .c15 import ref_py
 
 ID = 'C16'
 LEVEL = 'model_checking'
-RULE = ('(long atoms of 250..1030 characters with a character that needs escaping at every offset around 256, 512, 1024; compounds named like operators with numeral arguments) every atom text of length <= 3 [thorough: 4] over the 21 characters {a Z 0 _ space \' " LF CR # % ( ) , . : é 五 ﬁ(ligature) ％(full-width) and a character outside the BMP} (quoted when '
+RULE = ('(layout: the clause p(X,Y) :- q(X,_), r(_,Y) with its two anonymous variables at every pair of grid positions, lines 2..25 [40] x columns 0..15 [25]; comments: every ordered pair of 23 comment-like payloads of other languages in comment lines and quoted atoms around four facts) (long atoms of 250..1030 characters with a character that needs escaping at every offset around 256, 512, 1024; compounds named like operators with numeral arguments) every atom text of length <= 3 [thorough: 4] over the 23 characters {/ * a Z 0 _ space \' " LF CR # % ( ) , . : é 五 ﬁ(ligature) ％(full-width) and a character outside the BMP} (quoted when '
         'the lexer requires it, also quoted when it does not), and every term of depth <= 2 over {6 atom texts, 0 7 123, '
         'f/1, g/2, zero-argument compounds f() and a quoted one, [] [t] [t,u] [t|V] [t,u|V], _, named variables} - and pairs of literals that print alike (a compound or list next to the quoted atom spelling it) - each literal compiled as a fact argument, as a head '
         'argument of a rule, and as a body-goal argument, each batch also compiled from a file holding the same text (identical code required), then (1) read back through a query: structure equals the '
@@ -21,7 +21,7 @@ RULE = ('(long atoms of 250..1030 characters with a character that needs escapin
 ASSUMPTIONS = ['the generator starts from a TERM, prints it in the documented syntax (\' written as \\\', no other '
                'backslashes) and knows the value to_python must return (RefLiteral)',
                'to_python of partial lists is unspecified and observed structurally only']
-CHARS = ['a', 'Z', '0', '_', ' ', "'", '"', '\n', '\r', '#', '%', '(', ')', ',', '.', ':', 'é', '五', '\ufb01', '\uff05', '\U0001f600']
+CHARS = ['a', 'Z', '0', '_', ' ', "'", '"', '\n', '\r', '#', '%', '(', ')', ',', '.', ':', 'é', '五', '\ufb01', '\uff05', '\U0001f600', '/', '*']
 BATCH = 30
 
 
@@ -340,6 +340,72 @@ def check_anon(src):
     return None
 
 
+# ---- layout: where a token stands in the source does not matter ------------------------------------
+# the clause  p(X,Y) :- q(X,_), r(_,Y).  with its two anonymous variables at EVERY pair of positions
+# (line a, column b) < (line c, column d) of a grid (the rest of the clause flows around them)
+def layout_cases(tier):
+    bmax, cmax = (16, 26) if tier == 'quick' else (26, 41)
+    idx = 0
+    for a in (2, 3):
+        for b in range(bmax):
+            for c in range(a + 1, cmax):
+                for d in range(bmax):
+                    yield idx, (a, b, c, d)
+                    idx += 1
+
+
+def layout_text(pos):
+    a, b, c, d = pos
+    return ('p(X,Y) :- q(X,' + '\n' * (a - 1) + ' ' * b + '_), r(' + '\n' * (c - a) + ' ' * d + '_,Y).\nq(1,a).\nr(b,2).\n')
+
+
+def check_layout(pos):
+    src = layout_text(pos)
+    try:
+        yp = impl.new_engine(impl.compile_text(src))
+        x, y = yp.variable(), yp.variable()
+        rows = [impl.observe([x, y]) for _ in yp.query('p', [x, y])]
+    except Exception as e:  # noqa: BLE001
+        return ('violation', 'layout:raises:' + type(e).__name__, 'program %r raised %r' % (src, e))
+    if rows != [(('c', 1), ('c', 2))]:
+        return ('violation', 'layout:answers-depend-on-token-positions', 'program %r (anonymous variables at line %d column %d and line %d column %d): p(X,Y) gives %r, expected X = 1, Y = 2 as in every other layout'
+                % (src, pos[0], pos[1], pos[2], pos[3], rows))
+    return None
+
+
+# ---- comments are comments whatever they contain; what stands between two comments is compiled
+COMMENT_PAYLOADS = ['/*', '*/', '/* x */', '<!--', '-->', '#', '//', '--', '"' * 3, "'", "'" * 3, '\\', ':- halt.', 'first(z).', '%', '{-', '-}', '(*', '*)', '=begin', '=end', '#|', '|#']
+
+
+def comment_cases():
+    idx = 0
+    for t1 in COMMENT_PAYLOADS:
+        for t2 in COMMENT_PAYLOADS:
+            yield idx, (t1, t2)
+            idx += 1
+
+
+def _plain(t):
+    return t.replace('\\', '').replace("'", '')
+
+
+def check_comments(pair):
+    t1, t2 = pair
+    src = "%% %s\nfirst(a).\n%% sources: src/%s\nsecond('%s', b).\n%%%s\nthird(c, '%s').\n%% %s %s\nfourth(d).\n" % (t1, t1, _plain(t1), t2, _plain(t2), t2, t1)
+    try:
+        yp = impl.new_engine(impl.compile_text(src))
+        got = []
+        for name, n in (('first', 1), ('second', 2), ('third', 2), ('fourth', 1)):
+            vs = [yp.variable() for _ in range(n)]
+            got.append([impl.observe(vs) for _ in yp.query(name, vs)])
+    except Exception as e:  # noqa: BLE001
+        return ('violation', 'comments:raises:' + type(e).__name__, 'program %r raised %r' % (src, e))
+    want = [[(('a', 'a'),)], [(('a', _plain(t1)), ('a', 'b'))], [(('a', 'c'), ('a', _plain(t2)))], [(('a', 'd'),)]]
+    if got != want:
+        return ('violation', 'comments:clauses-between-comments-lost-or-altered', 'program %r: first/1, second/2, third/2, fourth/1 answer %r, expected %r' % (src, got, want))
+    return None
+
+
 NSH = 32
 
 
@@ -385,6 +451,19 @@ def run_shard(spec):
         if idx % 4999 == 0:
             acc.sample({'class': cls, 'literal_source': text or show_term(term), 'expected_structure': repr(canon([term]))[:200]}, limit=1)
     flush()
+    for fam, cases, fn in (('layout', layout_cases(tier), check_layout), ('comments', comment_cases(), check_comments)):
+        for i, case in cases:
+            if i % n != k:
+                continue
+            acc.n['evaluations'] += 1
+            acc.n['validated'] += 1
+            acc.n['transitions'] += 2
+            bad = fn(case)
+            if bad:
+                acc.violation(bad[1], (2 * 10 ** 9 + i,), {fam: list(case)}, bad[2], key='%s|%s' % (fam, list(case)))
+            else:
+                acc.n['nontrivial'] += 1
+                acc.outcome((fam, 'ok'))
     if k == 0:
         for i, src in enumerate(anon_cases()):
             acc.n['evaluations'] += 1
@@ -405,6 +484,12 @@ def _jt(t):
 
 
 def replay(case):
+    if 'layout' in case:
+        bad = check_layout(tuple(case['layout']))
+        return [(bad[1], bad[2])] if bad else []
+    if 'comments' in case:
+        bad = check_comments(tuple(case['comments']))
+        return [(bad[1], bad[2])] if bad else []
     from ..diff import _t
     if 'anon' in case:
         bad = check_anon(case['anon'])
